@@ -29,7 +29,7 @@ theorem ppo_surrogate_hasDerivAt (ε A o x₀ : ℝ) (hε : 0 ≤ ε)
 
 /-- inside the clip range the cotangent is `A·r`; -/
 example : surrGrad (1 / 5 : ℝ) 3 0 0 = 3 := by
-  simp [surrGrad_real]; norm_num
+  norm_num [surrGrad_real]
 /-- hypotheses of `ppo_surrogate_hasDerivAt` are met inside the range … -/
 example : ratio (0 : ℝ) 0 ≠ 1 - 1 / 5 ∧ ratio (0 : ℝ) 0 ≠ 1 + 1 / 5 := by
   simp [ratio_real]; norm_num
@@ -58,7 +58,7 @@ theorem ppo_loss_hasDerivAt_logp (c : PGConfig ℝ) (S : List (PGSample ℝ)) (j
   have hv := (valueLoss_hasDerivAt_logp S j hj c.clipVf).const_mul c.vfCoef
   refine hasDerivAt_of_eq ((hp.add he).add hv) (fun _ => rfl) ?_
   simp only [ppoCotLogp, entLogpCot, List.getElem_map, zero_real, one_real, ofNat_real]
-  cases c.hasEntropy <;> simp
+  simp
 
 /-- **PPO / A2C, values.**  `(valueCot …)[j]` is the partial derivative of the PPO loss with respect to the value
 prediction of sample `j` (clipped variant: zero where `|v - v_old| > clip_range_vf`), away from the clamp's kinks. -/
@@ -82,7 +82,7 @@ theorem ppo_loss_hasDerivAt_entropy (c : PGConfig ℝ) (S : List (PGSample ℝ))
   have hv := (valueLoss_hasDerivAt_entropy S j hj c.clipVf).const_mul c.vfCoef
   refine hasDerivAt_of_eq ((hp.add he).add hv) (fun _ => rfl) ?_
   simp only [entropyCot, List.getElem_map, zero_real, one_real, ofNat_real]
-  cases c.hasEntropy <;> simp
+  simp
 
 /-- a two-sample batch whose second sample is strictly inside the value-clip range meets the hypotheses -/
 example : ∀ cv, (some (1 / 5 : ℝ)) = some cv →
@@ -100,7 +100,7 @@ theorem a2c_loss_hasDerivAt_logp (c : PGConfig ℝ) (S : List (PGSample ℝ)) (j
   have hv := (valueLoss_hasDerivAt_logp S j hj none).const_mul c.vfCoef
   refine hasDerivAt_of_eq ((hp.add he).add hv) (fun _ => rfl) ?_
   simp only [a2cCotLogp, entLogpCot, List.getElem_map, zero_real, one_real, ofNat_real]
-  cases c.hasEntropy <;> simp
+  simp
 
 theorem a2c_loss_hasDerivAt_value (c : PGConfig ℝ) (S : List (PGSample ℝ)) (j : ℕ) (hj : j < S.length) :
     HasDerivAt (fun x => a2cLoss c (S.set j { S[j] with value := x }))
@@ -119,7 +119,7 @@ theorem a2c_loss_hasDerivAt_entropy (c : PGConfig ℝ) (S : List (PGSample ℝ))
   have hv := (valueLoss_hasDerivAt_entropy S j hj none).const_mul c.vfCoef
   refine hasDerivAt_of_eq ((hp.add he).add hv) (fun _ => rfl) ?_
   simp only [entropyCot, List.getElem_map, zero_real, one_real, ofNat_real]
-  cases c.hasEntropy <;> simp
+  simp
 
 /-! ### the loss is affine in the coefficients; the entropy bonus has the right sign -/
 
@@ -138,10 +138,11 @@ theorem entropy_increases_lowers_loss (c : PGConfig ℝ) (S : List (PGSample ℝ
     have : 0 < S.length := Nat.lt_of_le_of_lt (Nat.zero_le _) hj
     exact_mod_cast this
   have hp : ∀ y, ppoPolicyLoss c.clip (S.set j { S[j] with entropy := y }) = ppoPolicyLoss c.clip S := by
-    intro y; simp only [ppoPolicyLoss]; rw [meanMap_set_eq _ S j hj _ rfl]
+    intro y; simp only [ppoPolicyLoss]
+    rw [meanMap_set_eq (surrTerm c.clip) S j hj { S[j] with entropy := y } rfl]
   have hv : ∀ y, valueLoss c.clipVf (S.set j { S[j] with entropy := y }) = valueLoss c.clipVf S := by
     intro y; simp only [valueLoss]
-    rw [meanMap_set_eq _ S j hj _ (by cases c.clipVf <;> rfl)]
+    rw [meanMap_set_eq (valueTerm c.clipVf) S j hj { S[j] with entropy := y } (by cases c.clipVf <;> rfl)]
   have hent : ∀ y, entropyLoss true (S.set j { S[j] with entropy := y })
       = -(((S.map fun s => s.entropy).sum - S[j].entropy + y) / (S.length : ℝ)) := by
     intro y
@@ -276,7 +277,7 @@ theorem td3_actor_due_iff (n delay : ℕ) : td3ActorDue n delay = true ↔ delay
   simp [td3ActorDue, Nat.dvd_iff_mod_eq_zero]
 
 theorem ddpg_actor_always_due (n : ℕ) : td3ActorDue n 1 = true := by
-  simp [td3ActorDue]
+  simp [td3ActorDue, Nat.mod_one]
 
 /-! ### gradient-norm clipping -/
 
